@@ -37,8 +37,9 @@ claim(
     "lattice targets (1-D 6-8 states, 2-D 3x3/4x3; unimodal, bimodal, ties, holes, cliff; T in {1,2.5}; free/box/non-negative; axis and oblique PCA directions; "
     "fresh and non-initial chains), giving the exact per-attempt kernel (detailed balance, proposal symmetry, threshold = MH probability) and the exact law of the "
     "recorded step (all rejections up to R, loop invariance, closed-form tail) whose stationary distribution is compared with pi^(1/T). HMC/ensemble: every "
-    "(configuration, draw) pair: threshold = exp(H0-H1) / z^(n-1) pi(Y)/pi(X), reverse move run by the code itself, stretch-factor law, partner uniformity.",
-    "finite draw alphabets and lattice targets; adaptation (diminishing) not decided; numpy linear algebra for the stationary solve",
+    "(configuration, draw) pair: threshold = exp(H0-H1) / z^(n-1) pi(Y)/pi(X), reverse move run by the code itself, stretch-factor law, partner uniformity. Attempt-level oracle again on a continuous target after real histories "
+    "(0-60 seeded steps with adaptation intervals shrunk: adapted widths, try-count halvings, re-estimated PCA directions). The parallel-tempering exchange move through C08's exchange evaluator (sorted and unsorted ladders).",
+    "finite draw alphabets and lattice targets; adaptation (diminishing) not decided; numpy linear algebra for the stationary solve; the step-law oracle applies where the recorded chain is irreducible on the support (otherwise counted as skipped)",
     "DESIGN.md section 5 / C01",
 )
 
@@ -50,7 +51,8 @@ claim(
     "Every history of depth 3 (quick) / 4 (thorough) over {take_step, advance(1), advance(3)} for Metropolis/Gibbs/PCA/HMC/Ensemble x {free, box} x T in {1,2.5} x d in {1,2} "
     "is executed on fresh real objects under a scripted generator, over all random outcomes within a deviation bound (2/3) so accept, auto-accept and reject-then-accept paths are taken; "
     "after every call probs[k] == posterior(sample[k])/T for all k, lengths agree, mode() is a recorded row of maximal recorded probability, the caller's arrays are byte-identical. "
-    "Second harness: two samplers built from the same arrays, all 2^L interleavings of their steps; each must equal its solo run. The exchange clause is decided in C08's exchange evaluator.",
+    "Ensemble also with integer-dtype starting positions and with max_attempts=1 (failed walker updates). Second harness: two samplers built from the same arrays, all 2^L interleavings of their steps; each must equal its solo run. "
+    "Points installed by an exchange: C08's exchange evaluator (real swap()/tempering_process over fake pipes, all pairings and outcomes, consecutive rounds, mode() afterwards) is run here too.",
     "fixed smooth posterior; 2-letter normal alphabet and 2 quantiles; deviation bound stated in evidence",
     "DESIGN.md section 5 / C03",
 )
@@ -58,12 +60,13 @@ claim(
     "C08",
     "model_checking",
     "B-schedule + A-choice-tree",
-    "stateful BFS over all interleavings of the real parent/worker code over fake Process/Pipe/Event; choice-tree over pairings and accept/reject; conformance run on real multiprocessing",
+    "explicit-state search over all interleavings of the real parent/worker code over fake Process/Pipe/Event (model of local steps learned from and audited against real executions, cross-checked with the plain search); choice-tree over pairings and accept/reject; conformance runs on real multiprocessing",
     "inference.mcmc.parallel's Process/Pipe/Event are replaced by fakes run as threads under a controller that owns every send/recv/poll/set/join; all interleavings of parent + N workers "
-    "(N<=3 quick, <=4 thorough; pipe capacity inf and 1) are explored for every command script up to length 2/3 over {take_steps(1), take_steps(2), swap, advance(5,2), return_chains}: no deadlock, "
+    "(N<=4 quick, <=5 thorough; pipe capacity inf and 1) are explored for every command script up to length 2 (quick) / 3 (thorough, plus a fifth of the length-4 scripts) over {take_steps(1), take_steps(2), swap, advance(5,2), return_chains}: no deadlock, "
     "no worker death, every worker terminates after shutdown, exactly one final outcome per script, chains advanced by the requested steps; the same scripts are run on real multiprocessing and compared byte-for-byte. "
     "swap(): every pairing and accept/reject outcome under the scripted generator: threshold = min(1,exp((1/Ti-1/Tj)(Lj-Li))), hand-over of position and re-tempered probability, untouched chains, counters; "
-    "tight_pairs/uniform_pairs for N=1..7 over all outcomes; advance(n, swap_interval) arithmetic on a grid.",
+    "consecutive exchange rounds without stepping, sorted and unsorted temperature ladders, mode() of the returned chains; tight_pairs/uniform_pairs for N=1..7 over all outcomes; advance(n, swap_interval) arithmetic on a grid. "
+    "Quick tier: ~190k global states / 730k transitions; thorough: 2.3M / 10M.",
     "scheduling points at IPC operations only (separate address spaces); OS-level pipe behaviour below Connection.send/recv is multiprocessing's contract; fork copy emulated by deepcopy",
     "DESIGN.md section 5 / C08",
 )
@@ -77,8 +80,9 @@ claim(
     "rational-arithmetic symmetric fold: inside, identity inside, symmetric, periodic, momentum sign = parity of folds. (ii) every call sequence of length 4 (quick) / 5 (thorough) over "
     "{set_boundaries x3, remove, set_non_negative(True/False)} replayed on fresh real GibbsChains; in every state 9 overshooting raw proposals must land in the intersection of the limits "
     "given by the reference model (last un-removed box, last flag). (iii) Gibbs/Metropolis/PCA(axis+oblique)/HMC(analytic and finite-difference gradient)/Ensemble with bounds: every argument of the "
-    "user's posterior and gradient and every recorded sample, draws up to 50 widths, starts on walls/corner, all random outcomes within a deviation bound.",
-    "finite lattices/alphabets; horizon of 40 posterior evaluations and max_attempts=3 per step in (iii)",
+    "user's posterior and gradient and every recorded sample, draws up to 50 widths, starts on walls/corner, boxes of several magnitudes incl. one narrower than 1e-5 of its own location, fresh and reloaded (save->load) samplers, "
+    "all random outcomes within a deviation bound.",
+    "finite lattices/alphabets; horizon of 8 posterior evaluations per step (60 with the finite-difference gradient) and max_attempts=3 in (iii)",
     "DESIGN.md section 5 / C04",
 )
 
@@ -89,7 +93,8 @@ claim(
     "bounded-exhaustive input lattice evaluated by the real likelihood classes against 50-digit mpmath reference densities",
     "3 likelihood classes x sigma patterns 1e-6..1e3 (and mixed) x forward models {identity, linear, quadratic} with exact Jacobians x input forms x every residual vector in A^n (n<=3; windows for n=5) "
     "over A = {0, +-.5, +-3, +-30, +-300, +-1e4} sigma: value and gradient vs. mpmath closed forms on the same floats, cost/cost_gradient bit-for-bit negatives, normalisation over the data by mp.quad, "
-    "second moment = sigma^2. Exhaustive over the stated lattice; the tests compare a handful of random points with scipy.",
+    "second moment = sigma^2; call histories on one object with one theta array overwritten in place (all pairs of calls) vs a fresh object; 400-6000 data points with uncertainties 1e-4..1e4. "
+    "Exhaustive over the stated lattice; the tests compare a handful of random points with scipy.",
     "forward-model output and Jacobian taken as exact inputs; n <= 5; mpmath trusted",
     "DESIGN.md section 5 / C05",
 )
@@ -113,7 +118,8 @@ claim(
     "For every sampler (Metropolis, Gibbs, PCA, HMC, Ensemble) x configuration (free, bounds, Gibbs limits, T=2.5, scalar/vector/matrix mass, finite-difference gradient, alpha=3) a history of L=12 (quick) / 30 (thorough) "
     "steps with adaptation intervals shrunk so that width, epsilon and direction updates fall inside it; at EVERY save point k=0..L: save, load, save, load; read-outs (samples, probabilities, lengths, bounds, mode, "
     "interval, tuning) must be equal, plot calls must succeed whenever they succeed on the original, and with the original's generator state copied in, the continuation by take_step (compared after every step) and "
-    "by advance must be byte-identical to the sampler that was never saved.",
+    "by advance must be byte-identical to the sampler that was never saved; the take_step continuation starts from the first round trip and the advance continuation from the second; 3-parameter PCA chains and "
+    "histories with estimate_mass() before the save are included.",
     "one fixed posterior; generator state copied from the original (the statement's premise); numpy savez/load trusted",
     "DESIGN.md section 5 / C09",
 )
@@ -125,7 +131,7 @@ claim(
     "Chains of every length N=1..12 (ensemble 1..4 iterations) are produced by real stepping (and again through save/load) for each sampler and d in {1,2,3}; for every burn in 0..N+1 and thin in 1..N+1 "
     "get_parameter/get_sample/get_probabilities must equal rows burn::thin of the full chain, with first dimension = number retained (0 and 1 included) and row-aligned; get_marginal must be built from exactly "
     "those values (estimator constructors intercepted); get_interval for 5 fractions x samples in {None,1..N+2} x every outcome of the scripted permutation: 2-D rows with their own probabilities from the top fraction, "
-    "all of it when no count is given, at most the count otherwise.",
+    "all of it when no count is given, at most the count otherwise. Read-out histories over {read, replace_last, take_step} (no stale cached read-out).",
     "chain lengths <= 12; both the documented thin override and the user's thin are accepted when a sample count is requested; cut index floor(n(1-f)) exact or in floating point",
     "DESIGN.md section 5 / C14",
 )
@@ -138,7 +144,8 @@ claim(
     "advance(m) for every m in [0,260] (quick: [0,130] plus 199..260 edge values) on fresh and already-advanced chains, all pairs (m1,m2) in [0,12]^2 / [0,30]^2, interleaved take_step, with and without progress display, "
     "ensemble with 3-5 walkers, one-parameter chains across the first adaptation: reported length = stored samples = stored probabilities and delta = m (x walkers). ChainPool through a fake Pool that pickles each task in and out "
     "and executes the tasks in EVERY order, compared with the same chains (same generator states) advanced serially, plus real multiprocessing Pool runs. run_for under a virtual clock (module-global time() replaced) for "
-    "per-evaluation costs 1e-6 s .. 600 s (constant and alternating) x budgets 1 s / 1 min / 1 h: terminates, no idle spin (10^4 clock readings without a step), returns only after the budget, no step after the deadline was seen, counters consistent.",
+    "per-evaluation costs 1e-6 s .. 600 s (constant and alternating) x budgets 1 s / 1 min / 1 h: terminates, no idle spin (10^4 clock readings without a step), returns only after the budget, no step after the deadline was seen, counters consistent, "
+    "and with a constant cost per step a chain with a long history takes exactly as many steps as a fresh one. ParallelTempering.advance(n, swap_interval) arithmetic (shared with C08).",
     "virtual clock advanced by the user's posterior; Pool tasks run one at a time (workers are separate processes)",
     "DESIGN.md section 5 / C15",
 )
@@ -161,7 +168,7 @@ claim(
     "bounded-exhaustive enumeration of grids/tables/cells/quantiles with the module generator scripted, against the exact piecewise-linear CDF; posterior catalogue for get_conditionals",
     "piecewise_linear_sample: all ascending grids of 2-5 (thorough 6) nodes over spacings {.5,1,2,7} x all tables over {0,1,3,10}; the p handed to choice() is captured and compared with the exact cell masses, then every "
     "positive-probability cell x u in {0,.01,.25,.5,.75,.99} is compared with the inverse CDF of the linear density on the cell. get_conditionals / conditional_sample over 3 posterior families x scales 1e-3..1e3 x 5 bound shapes x "
-    "4 conditioning points x grid sizes: normalised, inside bounds, covering where the conditional exceeds 1e-3 of its peak, proportional to the true conditional.",
+    "4 conditioning points x grid sizes, then scales 1e-9..1e9 (thorough 1e-12..1e12) x locations up to 1e3 (1e6) widths from the origin: normalised, inside bounds, covering where the conditional exceeds 1e-3 of its peak, proportional to the true conditional.",
     "assumes cells are drawn with rng.choice(p=...) and within-cell uniforms with rng.random/uniform (another sampling scheme would be a harness error, not an alarm); 'small fraction of the peak' taken as 1e-3",
     "DESIGN.md section 5 / C20",
 )
@@ -183,7 +190,8 @@ claim(
     "D-lattice",
     "bounded-exhaustive lattice over kernel/mean compositions, point sets and hyper-parameter patterns against formulas re-implemented in complex/50-digit arithmetic",
     "Every kernel and composition (sums, ChangePoint with 2,3,4 kernels, nested) x point sets n<=8, d<=3 incl. duplicates x hyper-parameter patterns: symmetric, PSD, builder = pairwise + documented diagonal terms, rectangular blocks, "
-    "hyper-parameter gradients vs exact complex-step derivatives of the reference, composite value/gradients/labels/bounds = concatenation of components (also when a component was given its own bounds), mean functions likewise.",
+    "hyper-parameter gradients vs exact complex-step derivatives of the reference, composite value/gradients/labels/bounds = concatenation of components (also when a component was given its own bounds), mean functions likewise. "
+    "Composition histories: every sequence of <= 3 (thorough 4) construction/use operations on a pool of live kernels; after each, every object must equal a fresh one-shot build of its expression.",
     "finite designs; diagonal additions in [0,1e-10 K_ii] accepted as jitter; mean-function origin convention left open",
     "DESIGN.md section 5 / C10",
 )
@@ -194,7 +202,7 @@ claim(
     "bounded-exhaustive enumeration of small multisets and deterministic quantile samples against the exact Gaussian KDE",
     "All multisets of size 3..5 over 4-letter alphabets with >= 2 distinct values plus deterministic quantile samples (normal, t2, bimodal, ties; n up to 5000) x bandwidth modes {user, rule of thumb, cross-validated with the "
     "sub-sampling draws scripted} x evaluation points at every look-up region edge +-1 ulp, every sample point, a fine grid and far outside x affine maps: pdf >= 0, |pdf - exact| <= 1e-3/h, |cdf - exact| <= 5e-4, cdf monotone 0 -> 1 and equal to the "
-    "integral of the pdf, order independence, scalar = array, covariance under shift/scale for every bandwidth mode.",
+    "integral of the pdf, order independence, scalar = array = integer-typed points, covariance under shift/scale for every bandwidth mode.",
     "thresholds are the stated conventions of DESIGN.md (worst slack reported); 1-D evaluation points",
     "DESIGN.md section 5 / C12",
 )
@@ -204,7 +212,8 @@ claim(
     "D-lattice",
     "bounded-exhaustive configuration lattice; Richardson-extrapolated derivatives of the real prediction and a 50-digit reference for the gradient covariance",
     "d in {1,2,3} x n in {3,6} x means {C,L,Q} x kernels x hyper-parameter patterns x single/batched queries: gradient() and spatial_derivatives() means = Richardson derivative of the real __call__ mean and = reference; variance "
-    "derivative = derivative of __call__ variance; gradient covariance symmetric, PSD, = prior d d'k minus explained part (mpmath), explained part PSD; shapes; kernels without gradient_terms may raise NotImplementedError.",
+    "derivative = derivative of __call__ variance; gradient covariance symmetric, PSD, = prior d d'k minus explained part (mpmath), explained part PSD; shapes; kernels without gradient_terms may raise NotImplementedError. "
+    "Call histories on one regressor (queries and set_hyperparameters, depth 3/4) vs a fresh regressor.",
     "finite designs; SE kernel for values; mpmath trusted",
     "DESIGN.md section 5 / C16",
 )
@@ -215,7 +224,7 @@ claim(
     "bounded-exhaustive lattice over improvement z-scores and configurations against mpmath definitions; BFS over propose/add call histories on fresh real objects",
     "EI / UCB / MaxVariance for GPs (d in {1,2}, n in {3,6}) steered to z in {-40,...,-3-1e-9,-3,-3+1e-9,...,8}: EI = sigma(z Phi + phi) = E max(f - y_max, 0) by quadrature, continuity across the branch switch, opt_func = -log EI, "
     "opt_func_gradient = same objective + Richardson spatial gradient. History search: all sequences of length <= 3 over {propose(bfgs), propose(diffev), add(x,y[,err])} with the random starts scripted on {0,1/2,1-}: proposals inside the "
-    "box, added point becomes a row of the data, incumbent = max(y), every caller array byte- and shape-identical.",
+    "box, added point becomes a row of the data, incumbent = max(y), every caller array byte- and shape-identical; in every reached state the held acquisition is probed (incl. points probed before and the point just added) and must equal a fresh optimiser built from the same data.",
     "differential_evolution consumes its own stream (seeded; only bounds membership claimed); d <= 2; histories <= 3",
     "DESIGN.md section 5 / C18",
 )
@@ -224,7 +233,7 @@ claim(
     "exploration",
     "D-lattice",
     "bounded-exhaustive catalogue of deterministic samples x scales x locations x fractions; every oracle is against the estimator's own density integrated by the harness",
-    "Quantile samples {normal, gamma(3), t6; bimodal for KDE} x n x scale 1e-6..1e6 x location up to 1e6 sd x fractions: normalisation, cdf = integral of pdf, interval mass under own cdf and equal end densities, mode maximal, "
+    "Quantile samples {normal, gamma(3), mirrored gamma(3), t6; bimodal for KDE} x n x scale 1e-6..1e6 x location up to 1e6 sd x fractions: normalisation, cdf = integral of pdf (points handed over in scrambled order), interval mass under own cdf and equal end densities, mode maximal, "
     "moments of the own density (with the declared-range tail allowance), and covariance of every normalised output under shift/scale, for GaussianKDE and UnimodalPdf.",
     "thresholds are the stated conventions of DESIGN.md C19 (>= 2.5x worst in-domain slack); 'reasonable sample' = the catalogue",
     "DESIGN.md section 5 / C19",
@@ -237,7 +246,8 @@ claim(
     "bounded-exhaustive lattice over designs/kernels/means/hyper-parameters against a 50-digit reference (LOO by actual refits); exhaustive placement of the scripted random starts",
     "Designs n in {3,5,8}, d in {1,2} x noise x kernels {SE, RQ, SE+WN, ChangePoint} x means {C,L,Q} x hyper-parameter lattice: marginal likelihood = reference log N(y; m, K+S) (either constant convention), LOO score and "
     "loo_predictions = actual deletion of each datum in the reference, value-and-gradient variants = same value + Richardson gradient of the 50-digit score. Automatic selection: result inside the bounds for both criteria and both "
-    "optimisers; with bfgs the module-global `random` is scripted so that the starts are placed on {0,1/2,1-}^p exhaustively (multisets and orders as stated in the evidence) and score(result) >= score(centre).",
+    "optimisers; with bfgs the module-global `random` is scripted so that the starts are placed on {0,1/2,1-}^p exhaustively (multisets and orders as stated in the evidence) and score(result) >= score(centre), also on near-noise-free / near-duplicate / "
+    "clustered designs with wide bounds on which L-BFGS-B terminates abnormally.",
     "differential_evolution seeded (only bounds membership claimed); n <= 8; ChangePoint with two kernels; points with cond > 1e10 skipped and counted",
     "DESIGN.md section 5 / C11",
 )
@@ -247,7 +257,8 @@ claim(
     "D-lattice",
     "bounded-exhaustive lattice over model matrices/errors/kernels/means/hyper-parameters against the closed-form linear-Gaussian posterior in 50 digits",
     "Model matrices (under-, over-, exactly determined; dense, rank-deficient, zero row) x y_err patterns x positions d in {1,2} x kernels x means x hyper-parameter lattice: posterior mean and covariance = closed form, "
-    "mean-only path = full path, covariance symmetric PSD and prior - posterior PSD, evidence = log N(y; Am, AKA^T+S) up to the constant, gradient = Richardson derivative of the reference evidence.",
+    "mean-only path = full path, covariance symmetric PSD and prior - posterior PSD, evidence = log N(y; Am, AKA^T+S) up to the constant, gradient = Richardson derivative of the reference evidence; a user-defined mean non-linear in its hyper-parameters; "
+    "call histories (all sequences <= 3 of the four methods x 3 thetas, theta array overwritten in place) vs a fresh inverter.",
     "at most 5 parameters / 5 data, d <= 2; first-order perturbation tolerances derived in the reference (class Pert)",
     "DESIGN.md section 5 / C17",
 )
